@@ -258,3 +258,13 @@ Section Archiver.
 End Archiver.
 
 Arguments SLeaf {D}. Arguments SDir {D}. Arguments sname {D}.
+
+(* ParentOptions::get_parent: the options as they arrive in Parent::new (argument order regenerated
+   from commands/backup.rs), and the backup command = archive with those *)
+Definition opts_passed (po : popts) : popts :=
+  let '(a, b) := get_parent_passes (ignore_ctime po) (ignore_inode po) in
+  {| ignore_ctime := a; ignore_inode := b |}.
+
+Definition backup_cmd (D : Type) (chunks : D -> list id) (tid : list node -> id) (po : popts)
+  (st : store) (ix : index) (parents : list id) (force skip_if_unchanged : bool) (cs : list (src D)) :=
+  archive D chunks tid (opts_passed po) st ix parents force skip_if_unchanged cs.
